@@ -102,6 +102,43 @@ class Ctx:
         return sum(1 for o in self.obs if o.rule == rule)
 
 
+class SubCtx:
+    """View of a Ctx for running another property's rules under new rule ids:
+    `mapping` = {their rule id: (our rule id, text)}; rules not in the mapping
+    are evaluated but not recorded."""
+
+    def __init__(self, ctx: "Ctx", mapping: Dict[str, Any], drop_keys: Optional[set] = None):
+        self._c = ctx
+        self._map = mapping
+        self._drop = drop_keys or set()
+        self.minimum: Dict[str, int] = {}
+        self.trusted: List[str] = []
+        self.undecided: List[str] = []
+        self.assumptions: List[str] = []
+        self.extra: Dict[str, Any] = {}
+        self.exhaustive = None
+
+    def __getattr__(self, k):
+        return getattr(self._c, k)
+
+    def rule(self, rid: str, text: str, minimum: int = 1) -> None:
+        if rid in self._map:
+            new, t = self._map[rid]
+            if new not in self._c.rules:
+                self._c.rule(new, t or text, 1)
+
+    def ob(self, rule: str, key: str, ok: bool, **kw) -> bool:
+        if rule in self._map and f"{rule}|{key}" not in self._drop:
+            return self._c.ob(self._map[rule][0], key, ok, **kw)
+        return bool(ok)
+
+    def note(self, s: str) -> None:
+        pass
+
+    def sample(self, x: Any) -> None:
+        pass
+
+
 def where(mod: Module, node: ast.AST) -> str:
     return f"{mod.name}:{mod.qualname_of(node)}"
 
